@@ -425,7 +425,7 @@ func heaviestValidLeaf(t *chainx.Tree) int {
 // back; every revert and re-apply is a commit point.  Reopened on one of those transient tips the
 // node must come back to the uninterrupted tip when the history is offered again: that branch is
 // stored with supplements and sufficiently heavier than where the node sits.
-func DirectedFailingReorg(r *vh.Run, rng *vh.RNG, name string, maxReopen int) {
+func DirectedFailingReorg(r *vh.Run, rng *vh.RNG, name string, maxReopen int, pure bool) {
 	net := c02.StoreNet(rng)
 	var t *chainx.Tree
 	cfg := chainx.GenCfg{Main: 8 + rng.Intn(5), Forks: 1, MaxBranch: 3, Kinds: c02.Menu(), TxPerBlk: 3}
@@ -472,7 +472,11 @@ func DirectedFailingReorg(r *vh.Run, rng *vh.RNG, name string, maxReopen int) {
 		k += n
 	}
 	sched = append(sched, t.PathFromRoot(at))
-	sched = append(sched, t.Schedule(rng)...)
+	if !pure {
+		// followed by whatever else the tree has (in a pure history nothing else is ever offered: a
+		// later batch with a not yet validated block in it would trigger the weight comparison anyway)
+		sched = append(sched, t.Schedule(rng)...)
+	}
 	ids := c02.NewIDs()
 	decls := c02.Declare(t, ids)
 	for _, kind := range []string{"mem", "cache", "bolt"} {
@@ -515,10 +519,10 @@ func Run(r *vh.Run) {
 			}
 		})
 	}
-	for i := 0; i < r.Pick(3, 40); i++ {
+	for i := 0; i < r.Pick(4, 40); i++ {
 		drng := rng.Fork()
 		c02.Safely(r, fmt.Sprintf("failing-reorg%d", i), func() {
-			DirectedFailingReorg(r, drng, fmt.Sprintf("failing-reorg%d", i), maxReopen)
+			DirectedFailingReorg(r, drng, fmt.Sprintf("failing-reorg%d", i), maxReopen, i%2 == 0)
 		})
 	}
 	for i := 0; i < r.Pick(2, 20); i++ {
